@@ -494,6 +494,7 @@ pub fn gen_c10(
     qsort: Option<&'static str>,
     fsort: Option<&'static str>,
     valuewise: bool,
+    permkind: &str,
 ) -> ScriptCase {
     let mut db = DbScript { engine: "mock".into(), ..Default::default() };
     let mut text = String::new();
@@ -521,7 +522,7 @@ pub fn gen_c10(
         text.push('\n');
     }
     text.push('\n');
-    ScriptCase { text, db, tag: format!("c10 q={:?} f={:?} vw={}", qsort, fsort, valuewise), ..Default::default() }
+    ScriptCase { text, db, tag: format!("c10 q={:?} f={:?} vw={} perm={}", qsort, fsort, valuewise, permkind), ..Default::default() }
 }
 
 /// C11: guards (list of (is_onlyif, label)), label subset, kind, engine name set or empty
